@@ -2,7 +2,7 @@
     (sift-up / sift-down restore the heap invariant, Pop returns a least element),
     the comparator chain is a strict total order, leaf queues are only touched by
     heap pushes and pops, and the decision-level statement of C16. *)
-From Coq Require Import List ZArith Bool Lia ZifyBool ZifyNat Permutation.
+From Coq Require Import List ZArith Bool Lia ZifyBool ZifyNat Permutation Sorted.
 From KaiV Require Import Model.JobOrder Model.JobOrderSpec.
 Import ListNotations.
 Set Default Timeout 60.
@@ -1314,4 +1314,328 @@ Proof.
   unfold C16_decision_stmt_any_repush. intros qs qord C attempt cle a b fuel jobs c0 out
     H1 H2 H3 H4 H5 H6 H7 Ha Hok Hrun Hpl.
   eapply (decision_general qs qord (-1) attempt cle a b); eauto. lia.
+Qed.
+
+(** * A bounded queue holds the [depth] best of everything pushed *)
+Section Bounded.
+  Context {A : Type}.
+  Variable less : A -> A -> bool.
+  Hypothesis SW : strict_weak less.
+
+  (** [a] is not after [b] *)
+  Definition not_after (a b : A) : Prop := less b a = false.
+
+  Lemma insert_perm : forall x l, Permutation (x :: l) (insert_sorted less x l).
+  Proof.
+    intros x l. induction l as [|y r IH]; cbn [insert_sorted]; [reflexivity|].
+    destruct (less x y); [reflexivity|].
+    eapply Permutation_trans; [apply perm_swap|]. now apply perm_skip.
+  Qed.
+
+  Lemma insert_sorted_sorted : forall x l,
+      StronglySorted not_after l -> StronglySorted not_after (insert_sorted less x l).
+  Proof.
+    intros x l. induction l as [|y r IH]; intros Hs; cbn [insert_sorted].
+    - constructor; constructor.
+    - inversion Hs as [|? ? Hr Hy]; subst. destruct (less x y) eqn:E.
+      + constructor; [exact Hs|]. constructor.
+        * unfold not_after. now apply (sw_asym less SW).
+        * rewrite Forall_forall in *. intros z Hz. unfold not_after.
+          eapply (sw_lt_le less SW); [exact E|]. apply Hy. exact Hz.
+      + constructor; [now apply IH|].
+        rewrite Forall_forall in *. intros z Hz.
+        apply (Permutation_in _ (Permutation_sym (insert_perm x r))) in Hz.
+        destruct Hz as [<-|Hz]; [exact E|now apply Hy].
+  Qed.
+
+  Lemma sorted_firstn : forall n l, StronglySorted not_after l -> StronglySorted not_after (firstn n l).
+  Proof.
+    induction n as [|n IH]; intros l Hs; [constructor|].
+    destruct l as [|y r]; [constructor|]. cbn [firstn]. inversion Hs as [|? ? Hr Hy]; subst.
+    constructor; [now apply IH|].
+    rewrite Forall_forall in *. intros z Hz. apply Hy.
+    rewrite <- (firstn_skipn n r). apply in_or_app. now left.
+  Qed.
+
+  (** in a sorted list nothing of a later part is ordered before something of an
+      earlier part *)
+  Lemma sorted_app_cross : forall F T, StronglySorted not_after (F ++ T) ->
+      forall f t, In f F -> In t T -> less t f = false.
+  Proof.
+    induction F as [|y F IH]; intros T Hs f t Hf Ht; [contradiction|].
+    cbn [app] in Hs. inversion Hs as [|? ? Hr Hy]; subst.
+    destruct Hf as [->|Hf]; [|eapply IH; eauto].
+    rewrite Forall_forall in Hy. apply Hy. apply in_or_app. now right.
+  Qed.
+
+  Lemma firstn_insert : forall d s x,
+      firstn d (insert_sorted less x (firstn d s)) = firstn d (insert_sorted less x s).
+  Proof.
+    intros d s. revert d. induction s as [|y r IH]; intros d x.
+    - now rewrite firstn_nil.
+    - destruct d as [|d]; [reflexivity|]. cbn [firstn insert_sorted].
+      destruct (less x y).
+      + cbn [firstn]. f_equal. change (y :: firstn d r) with (firstn (S d) (y :: r)).
+        rewrite firstn_firstn. f_equal. lia.
+      + cbn [firstn]. f_equal. apply IH.
+  Qed.
+
+  Lemma sort_by_spec_gen : forall xs acc, StronglySorted not_after acc ->
+      StronglySorted not_after (fold_left (fun acc x => insert_sorted less x acc) xs acc)
+      /\ Permutation (xs ++ acc) (fold_left (fun acc x => insert_sorted less x acc) xs acc).
+  Proof.
+    induction xs as [|x r IH]; intros acc Hs; cbn [fold_left app]; [split; auto|].
+    destruct (IH (insert_sorted less x acc) (insert_sorted_sorted x acc Hs)) as [Hs' P].
+    split; [exact Hs'|]. eapply Permutation_trans; [|exact P].
+    eapply Permutation_trans; [apply Permutation_middle|].
+    apply Permutation_app_head. apply insert_perm.
+  Qed.
+
+  Lemma sort_by_spec : forall xs, StronglySorted not_after (sort_by less xs) /\ Permutation xs (sort_by less xs).
+  Proof.
+    intros xs. destruct (sort_by_spec_gen xs [] (SSorted_nil _)) as [Hs P].
+    split; [exact Hs|]. now rewrite app_nil_r in P.
+  Qed.
+
+  (** keeping the [depth] best after every push = the [depth] best of everything *)
+  Lemma fold_ideal_firstn : forall d xs s, d <> -1 ->
+      fold_left (ideal_push less d) xs (firstn (Z.to_nat d) s)
+      = firstn (Z.to_nat d) (fold_left (fun acc x => insert_sorted less x acc) xs s).
+  Proof.
+    intros d xs. induction xs as [|x r IH]; intros s Hd; cbn [fold_left]; [reflexivity|].
+    rewrite <- IH by exact Hd. f_equal. unfold ideal_push.
+    destruct (d =? -1) eqn:E; [lia|]. apply firstn_insert.
+  Qed.
+
+  Lemma fold_ideal_d_best : forall d xs, fold_left (ideal_push less d) xs [] = d_best less d xs.
+  Proof.
+    intros d xs. unfold d_best, sort_by. destruct (d =? -1) eqn:E.
+    - revert E. generalize (@nil A). induction xs as [|x r IH]; intros acc E; cbn [fold_left]; [reflexivity|].
+      rewrite IH by exact E. unfold ideal_push. now rewrite E.
+    - rewrite <- fold_ideal_firstn by lia. now rewrite firstn_nil.
+  Qed.
+
+  Lemma total_on_incl : forall xs ys, incl ys xs -> total_on less xs -> total_on less ys.
+  Proof. intros xs ys Hi Ht a b Ha Hb. apply Ht; auto. Qed.
+
+  Lemma ideal_push_incl : forall d I x, incl (ideal_push less d I x) (x :: I).
+  Proof.
+    intros d I x z Hz. unfold ideal_push in Hz.
+    assert (Hz' : In z (insert_sorted less x I)).
+    { destruct (d =? -1); [exact Hz|].
+      rewrite <- (firstn_skipn (Z.to_nat d) (insert_sorted less x I)). apply in_or_app. now left. }
+    eapply Permutation_in; [apply Permutation_sym, insert_perm|exact Hz'].
+  Qed.
+
+  (** one push: the real queue follows the ideal one *)
+  Lemma pq_push_ideal : forall d l I x,
+      -1 <= d -> heap_ok less l -> Permutation l I -> StronglySorted not_after I ->
+      (d = -1 \/ Z.of_nat (length I) <= d) -> total_on less (x :: I) ->
+      exists l', pq_push less d l x = Ok l' /\ heap_ok less l' /\ Permutation l' (ideal_push less d I x)
+                 /\ StronglySorted not_after (ideal_push less d I x)
+                 /\ (d = -1 \/ Z.of_nat (length (ideal_push less d I x)) <= d).
+  Proof.
+    intros d l I x Hd Hh P HsI Hlen Htot.
+    destruct (pq_push_spec less SW d l x Hh) as (l' & Hp & Hh' & Hno & Hov).
+    exists l'. split; [exact Hp|]. split; [exact Hh'|].
+    pose proof (insert_sorted_sorted x I HsI) as HsJ.
+    pose proof (insert_perm x I) as PJ.
+    assert (LJ : length (insert_sorted less x I) = S (length I)).
+    { rewrite <- (Permutation_length PJ). reflexivity. }
+    pose proof (Permutation_length P) as Ll.
+    unfold ideal_push. destruct (d =? -1) eqn:E.
+    - split; [|split; [exact HsJ|left; lia]].
+      eapply Permutation_trans; [apply Permutation_sym, Hno; left; lia|].
+      eapply Permutation_trans; [apply perm_skip; exact P|exact PJ].
+    - split; [|split; [now apply sorted_firstn|right; rewrite firstn_length; lia]].
+      destruct (Z.lt_ge_cases (Z.of_nat (length I)) d) as [Hlt|Hge].
+      + rewrite firstn_all2 by lia.
+        eapply Permutation_trans; [apply Permutation_sym, Hno; right; lia|].
+        eapply Permutation_trans; [apply perm_skip; exact P|exact PJ].
+      + assert (Hdl : Z.to_nat d = length I) by lia.
+        destruct Hov as (y & Py & Hmax); [lia|].
+        destruct (nth_error_in_range (insert_sorted less x I) (length I)) as [w Hw]; [lia|].
+        pose proof (split_last _ _ _ LJ Hw) as HJ. rewrite Hdl.
+        set (F := firstn (length I) (insert_sorted less x I)) in *.
+        assert (PxJ : Permutation (x :: l) (F ++ [w])).
+        { rewrite <- HJ. eapply Permutation_trans; [apply perm_skip; exact P|exact PJ]. }
+        (* the dropped element is the last of the sorted list *)
+        assert (Hyw : y = w).
+        { assert (Hy : In y (x :: I)).
+          { eapply Permutation_in; [apply perm_skip; exact P|].
+            eapply Permutation_in; [apply Permutation_sym; exact Py|now left]. }
+          assert (Hwin : In w (x :: I)).
+          { eapply Permutation_in; [apply Permutation_sym; exact PJ|]. rewrite HJ. apply in_or_app. right. now left. }
+          destruct (Htot y w Hy Hwin) as [Heq|[Hlt|Hlt]]; [exact Heq| |].
+          - rewrite Hmax in Hlt; [discriminate|].
+            eapply Permutation_in; [apply Permutation_sym; exact PxJ|]. apply in_or_app. right. now left.
+          - assert (HyJ : In y (F ++ [w])).
+            { eapply Permutation_in; [exact PxJ|]. eapply Permutation_in; [apply Permutation_sym; exact Py|now left]. }
+            apply in_app_or in HyJ. destruct HyJ as [HyF|[Hyw|[]]]; [|now symmetry].
+            rewrite HJ in HsJ. rewrite (sorted_app_cross F [w] HsJ y w HyF) in Hlt; [discriminate|now left]. }
+        subst y. apply Permutation_cons_inv with (a := w).
+        eapply Permutation_trans; [apply Permutation_sym; exact Py|].
+        eapply Permutation_trans; [exact PxJ|]. apply Permutation_sym, Permutation_cons_append.
+  Qed.
+
+  Lemma pq_push_all_ideal : forall xs d l I,
+      -1 <= d -> heap_ok less l -> Permutation l I -> StronglySorted not_after I ->
+      (d = -1 \/ Z.of_nat (length I) <= d) -> total_on less (xs ++ I) ->
+      exists l', pq_push_all less d l xs = Ok l' /\ heap_ok less l'
+                 /\ Permutation l' (fold_left (ideal_push less d) xs I).
+  Proof.
+    induction xs as [|x r IH]; intros d l I Hd Hh P Hs Hlen Htot; cbn [pq_push_all fold_left].
+    - exists l. auto.
+    - destruct (pq_push_ideal d l I x Hd Hh P Hs Hlen) as (l1 & Hp & Hh1 & P1 & Hs1 & Hlen1).
+      { eapply total_on_incl; [|exact Htot]. intros z [->|Hz]; [now left|]. apply in_or_app. now right. }
+      rewrite Hp. cbn [bind]. apply IH; auto.
+      eapply total_on_incl; [|exact Htot]. intros z Hz. apply in_app_or in Hz. destruct Hz as [Hz|Hz].
+      + right. apply in_or_app. now left.
+      + apply ideal_push_incl in Hz. destruct Hz as [->|Hz]; [now left|]. right. apply in_or_app. now right.
+  Qed.
+
+  Theorem pq_keeps_d_best : forall d xs, -1 <= d -> total_on less xs ->
+      exists l, pq_push_all less d [] xs = Ok l /\ heap_ok less l /\ Permutation l (d_best less d xs).
+  Proof.
+    intros d xs Hd Htot. rewrite <- fold_ideal_d_best.
+    apply pq_push_all_ideal; auto.
+    - apply heap_ok_nil.
+    - constructor.
+    - destruct (Z.eq_dec d (-1)); [auto|right; cbn; lia].
+    - now rewrite app_nil_r.
+  Qed.
+
+  (** the [depth] best are closed under "ordered before" *)
+  Lemma d_best_downward : forall d xs a b,
+      In a xs -> In b (d_best less d xs) -> less a b = true -> In a (d_best less d xs).
+  Proof.
+    intros d xs a b Ha Hb Hab. destruct (sort_by_spec xs) as [Hs P].
+    unfold d_best in *. destruct (d =? -1); [eapply Permutation_in; eauto|].
+    assert (Ha' : In a (sort_by less xs)) by (eapply Permutation_in; eauto).
+    rewrite <- (firstn_skipn (Z.to_nat d) (sort_by less xs)) in Ha', Hs.
+    apply in_app_or in Ha'. destruct Ha' as [Ha'|Ha']; [exact Ha'|].
+    rewrite (sorted_app_cross _ _ Hs b a Hb Ha') in Hab. discriminate.
+  Qed.
+
+  Theorem pq_kept_downward : forall d xs l a b, -1 <= d -> total_on less xs ->
+      pq_push_all less d [] xs = Ok l -> In a xs -> In b l -> less a b = true -> In a l.
+  Proof.
+    intros d xs l a b Hd Htot Hrun Ha Hb Hab.
+    destruct (pq_keeps_d_best d xs Hd Htot) as (l0 & Hrun0 & _ & P). rewrite Hrun in Hrun0. inversion Hrun0; subst l0.
+    eapply Permutation_in; [apply Permutation_sym; exact P|].
+    eapply d_best_downward; eauto. eapply Permutation_in; eauto.
+  Qed.
+End Bounded.
+
+(** jobs with distinct UIDs never tie *)
+Lemma job_less_total_on : forall xs, NoDup (map j_uid xs) -> total_on job_less xs.
+Proof.
+  intros xs Hnd a b Ha Hb. destruct (Z.eq_dec (j_uid a) (j_uid b)) as [E|E].
+  - left. eapply nodup_map_inj; eauto.
+  - right. now apply job_less_total.
+Qed.
+
+Theorem leaf_queue_keeps_d_best_proof : forall d xs, -1 <= d -> NoDup (map j_uid xs) ->
+    exists l, pq_push_all job_less d [] xs = Ok l /\ heap_ok job_less l /\ Permutation l (d_best job_less d xs)
+              /\ (forall a b, In a xs -> In b l -> job_less a b = true -> In a l).
+Proof.
+  intros d xs Hd Hnd. pose proof (job_less_total_on xs Hnd) as Htot.
+  destruct (pq_keeps_d_best job_less job_less_strict_weak d xs Hd Htot) as (l & Hrun & Hh & P).
+  exists l. repeat split; auto.
+  intros a b Ha Hb Hab. eapply (pq_kept_downward job_less job_less_strict_weak); eauto.
+Qed.
+
+(** * Witnesses *)
+Definition mkjob (uid q prio ct : Z) : job :=
+  {| j_uid := uid; j_queue := q; j_prio := prio; j_subgroups := [(0, 1)]; j_ctime := ct; j_shape := 0 |}.
+
+Definition w_qs : list qinfo := [ {| qi_id := 1; qi_parent := None; qi_leaf := true |} ].
+Definition w_top : job := mkjob 1 1 3 0.
+Definition w_a : job := mkjob 2 1 2 0.
+Definition w_b : job := mkjob 3 1 1 0.
+Definition w_qord (l r : Z) (lj rj : option job) : bool := true.
+
+(** the defect repaired by commit 4521da5: with depth 2 and jobs of priority 3, 1, 2
+    arriving in this order, [Push] as it was ([pq_push_v0]: heap.Remove(q, 2)) drops
+    the priority-2 job that has just been pushed to slice index 2 and keeps the
+    priority-1 job; the repaired [Push] keeps the two best *)
+Lemma pq_v0_drops_non_worst :
+  (l1 <- pq_push_v0 job_less 2 [] w_top ;; l2 <- pq_push_v0 job_less 2 l1 w_b ;; pq_push_v0 job_less 2 l2 w_a)
+  = Ok [w_top; w_b]
+  /\ job_less w_a w_b = true
+  /\ pq_push_all job_less 2 [] [w_top; w_b; w_a] = Ok [w_top; w_a]
+  /\ d_best job_less 2 [w_top; w_b; w_a] = [w_top; w_a].
+Proof. repeat split; vm_compute; reflexivity. Qed.
+
+(** an oracle that pushes back a job other than the one it was given defeats the
+    statement at a finite depth: depth 1, pending [w_a] and the better [w_top]; the
+    queue keeps [w_top]; placing [w_top] "re-pushes" [w_b], which is then placed
+    although [w_a] (ordered before it, pending, dropped) is not *)
+Definition w_attempt (j : job) (c : unit) : option (unit * option job) :=
+  if j_uid j =? 1 then Some (tt, Some w_b) else Some (tt, None).
+
+Lemma any_repush_witness :
+  allocate w_qs w_qord 1 w_attempt 10 [w_a; w_top] tt = Ok [(w_top, true); (w_b, true)].
+Proof. vm_compute. reflexivity. Qed.
+
+Lemma any_repush_refuted_proof : ~ C16_decision_stmt_any_repush 1.
+Proof.
+  intros H.
+  specialize (H w_qs w_qord unit w_attempt (fun _ _ => True) w_a w_b 10%nat [w_a; w_top] tt
+                [(w_top, true); (w_b, true)]).
+  assert (Hin : In (w_a, true) [(w_top, true); (w_b, true)]).
+  { apply H; [ auto | auto | auto | auto | reflexivity | reflexivity | vm_compute; reflexivity
+               | cbn; auto | vm_compute; reflexivity | exact any_repush_witness | cbn; auto ]. }
+  cbn in Hin. destruct Hin as [Hx|[Hx|[]]]; discriminate Hx.
+Qed.
+
+(** * Non-vacuity *)
+Definition ex_qs : list qinfo :=
+  [ {| qi_id := 1; qi_parent := None; qi_leaf := false |};
+    {| qi_id := 2; qi_parent := Some 1; qi_leaf := true |};
+    {| qi_id := 3; qi_parent := Some 1; qi_leaf := true |} ].
+Definition ex_qord (l r : Z) (lj rj : option job) : bool := l <? r.
+Definition ex_a : job := mkjob 1 2 2 5.
+Definition ex_b : job := mkjob 2 2 1 4.
+Definition ex_c : job := mkjob 3 3 9 1.
+(** one unit of capacity per attempt; a job that has nothing allocated yet is
+    pushed back once, with one pod allocated (as allocate does for an elastic job) *)
+Definition progressed (j : job) : job :=
+  {| j_uid := j_uid j; j_queue := j_queue j; j_prio := j_prio j; j_subgroups := [(1, 1)];
+     j_ctime := j_ctime j; j_shape := j_shape j |}.
+Definition ex_attempt (j : job) (c : Z) : option (Z * option job) :=
+  if 1 <=? c then
+    Some (c - 1, match j_subgroups j with (0, _) :: _ => Some (progressed j) | _ => None end)
+  else None.
+
+Lemma nonvacuous_proof :
+  (forall c, Z.le c c)
+  /\ (forall j c c' r, ex_attempt j c = Some (c', r) -> c' <= c)
+  /\ (forall c c', c' <= c -> fits ex_attempt ex_a c' = true -> fits ex_attempt ex_a c = true)
+  /\ (forall c, fits ex_attempt ex_a c = fits ex_attempt ex_b c)
+  /\ repush_same_job ex_attempt
+  /\ j_queue ex_a = j_queue ex_b /\ job_less ex_a ex_b = true
+  /\ NoDup (map j_uid [ex_b; ex_c; ex_a])
+  /\ queue_ok ex_qs (j_queue ex_a) = true
+  /\ allocate ex_qs ex_qord (-1) ex_attempt 20 [ex_b; ex_c; ex_a] 9
+     = Ok [(ex_a, true); (progressed ex_a, true); (ex_b, true); (progressed ex_b, true);
+           (ex_c, true); (progressed ex_c, true)]
+  /\ allocate ex_qs ex_qord (-1) ex_attempt 20 [ex_b; ex_c; ex_a] 1
+     = Ok [(ex_a, true); (progressed ex_a, false); (ex_b, false); (ex_c, false)]
+  /\ allocate ex_qs ex_qord 1 ex_attempt 20 [ex_b; ex_c; ex_a] 9
+     = Ok [(ex_a, true); (progressed ex_a, true); (ex_c, true); (progressed ex_c, true)]
+  /\ allocate ex_qs ex_qord 1 ex_attempt 20 [ex_b; ex_c; ex_a] 1
+     = Ok [(ex_a, true); (progressed ex_a, false); (ex_c, false)].
+Proof.
+  split; [intros; lia|]. split.
+  { intros j c c' r. unfold ex_attempt. destruct (1 <=? c); [|discriminate]. intros H. inversion H. lia. }
+  split.
+  { intros c c' Hle. unfold fits, ex_attempt. destruct (Z.leb_spec 1 c'), (Z.leb_spec 1 c); auto. lia. }
+  split; [intros c; unfold fits, ex_attempt; destruct (1 <=? c); reflexivity|]. split.
+  { intros j c c' j'. unfold ex_attempt. destruct (1 <=? c); [|discriminate].
+    destruct (j_subgroups j) as [|[[|p|p] m] r]; intros H; inversion H; subst; split; reflexivity. }
+  split; [reflexivity|]. split; [vm_compute; reflexivity|]. split.
+  { cbn. repeat constructor; cbn; intuition discriminate. }
+  split; [vm_compute; reflexivity|].
+  repeat split; vm_compute; reflexivity.
 Qed.
